@@ -20,6 +20,9 @@ type schedStep struct {
 	N    int    `json:"n"`
 	To   string `json:"to"`
 	Op   string `json:"op"`
+	// Arr (only for "/wait" steps): the thread's arrival number at Pos (since it was last switched
+	// in) at which the operation blocked - earlier arrivals found the operation ready
+	Arr int `json:"arr,omitempty"`
 }
 
 type mailbox struct {
@@ -219,7 +222,11 @@ func (in *Interp) rescheduleAt(self *thread, op string, pos token.Pos, suffix st
 	if next == self {
 		return
 	}
-	in.sched = append(in.sched, schedStep{From: self.name, Pos: where, N: self.visits[where], To: next.name, Op: op})
+	step := schedStep{From: self.name, Pos: where, N: self.visits[where], To: next.name, Op: op}
+	if suffix == "/wait" {
+		step.Arr = self.visits[in.syncWhere(op, pos)]
+	}
+	in.sched = append(in.sched, step)
 	next.visits = map[string]int{}
 	in.cur = next
 	next.wake <- true
